@@ -30,9 +30,40 @@ def jobs(tier):
     return out
 
 
+def tok_lemmas():
+    from .. import toklemmas as T, e2
+    from ..spec import words as W
+    import sys
+    from datetime import datetime
+    import ctparse.ctparse  # noqa
+    C = sys.modules["ctparse.ctparse"]
+
+    def api(k):
+        def f(word):
+            text = "%s tage" % word
+            p = C.ctparse(text, ts=datetime(2018, 3, 7, 12, 43), timeout=0)
+            ok = p.resolution is not None and str(p.resolution) == "%d days" % k
+            return {"api_reproduced": not ok, "text": text, "expected": "%d days" % k, "observed": str(p.resolution)}
+        return f
+    out = [e2.validate(200)]
+    for k in range(1, 32):
+        out.append(T.word_in_group("C08", 138, "n_%d" % k, W.NUM_EN[k - 1], str(k), api(k)))
+        out.append(T.word_in_group("C08", 138, "n_%d" % k, W.NUM_DE[k - 1], str(k), api(k)))
+        for alt in W.NUM_DE_ALT.get(k, []):
+            out.append(T.word_in_group("C08", 138, "n_%d" % k, alt, str(k), api(k)))
+    for unit, ws in W.UNITS.items():
+        for w in ws:
+            out.append(T.word_in_group("C08", 138, "d_" + unit, w, unit))
+            out.append(T.word_in_group("C08", 137, "d_" + unit, w, unit))
+    out.append(T.groups_disjoint("C08", 138, ["n_%d" % k for k in range(1, 32)]))
+    out.append(T.groups_disjoint("C08", 138, ["d_" + u for u in W.UNITS]))
+    return out
+
+
 def run(tier, t0, only=None):
     js = [j for j in jobs(tier) if not only or only in j.name]
     res = run_jobs(js)
+    res += [r for r in tok_lemmas() if not only or only in r.name]
     return finish(
         "C08", tier, res, t0,
         assumptions=["token lemmas: the amount group denotes N, exactly one n_k / unit group participates (E2)", "CrossHair's datetime model"],
